@@ -105,14 +105,18 @@ def surface_normal_from_cylindrical_derivatives(fp, ft, r, t):
     Returns
     -------
     ndarray, ndarray
-        x, y derivatives; will contain a singularity where r=0,
-        see fix_zero_singularity
+        x, y derivatives.  Where r=0 the azimuthal term ft/r is taken as zero,
+        which is exact for rotationally symmetric surfaces (ft=0 everywhere);
+        for other surfaces see fix_zero_singularity
 
     """
     cost = np.cos(t)
     sint = np.sin(t)
-    x = fp * cost - 1/r * ft * sint
-    y = fp * sint + 1/r * ft * cost
+    # ft vanishes on the axis (r=0) and ft/r has a finite limit there;
+    # 1/r * ft would evaluate inf * 0 = NaN for the on-axis point
+    ft_by_r = ft / np.where(r == 0, 1, r)
+    x = fp * cost - ft_by_r * sint
+    y = fp * sint + ft_by_r * cost
     return x, y
 
 
